@@ -216,6 +216,21 @@ def _run_fftinv(case):
     if flags["dims_noshift"]:
         resid["values_noshift"] = relmax(b2, im)
     flags["name"] = bool(b.name == im.name)
+    # the transforms of a plain array (the docstrings' "ndarray or xarray"): the numbers of the labelled image, and inverse to each other;
+    # 1-D arrays likewise, with and without the shift
+    try:
+        arr = np.asarray(im.transpose("x", "y", ...).values)
+        fa = fft(arr)
+        ba = ifft(fa)
+        resid["values_ndarray"] = relmax(ba, arr)
+        resid["values_ndarray_vs_labelled"] = relmax(np.asarray(fa), f.transpose("m", "n", ...).values)
+    except Exception:
+        flags["plain_ndarray_accepted"] = False
+    try:
+        line = np.asarray(im.transpose("x", "y", ...).values).reshape(im.sizes["x"], -1)[:, 0]
+        resid["values_1d"] = fnum(max(relmax(ifft(fft(line)), line), relmax(ifft(fft(line, shift=False), shift=False), line)))
+    except Exception:
+        flags["one_dimensional_array_accepted"] = False
     from vf.monitors import digest
     flags["attrs"] = bool(digest(dict(b.attrs)) == digest(dict(im.attrs)))
     return {"resid": resid, "flags": flags, "origin": obs_origin, "const": bool(np.ptp(np.abs(im.values)) == 0)}
@@ -348,6 +363,26 @@ def _run_prop(case):
         resid["stack@no_z_axis"] = relmax(flat2d.transpose(*r1.dims).values, r1.values)
     except Exception:
         flags["image_without_z_axis_propagates"] = False
+    # ... also when it has no z coordinate at all (dropped), for a list of distances with a zero in it, and with one more coordinate
+    # running along x (row numbers) that is not an axis
+    try:
+        bare = im.isel(z=0, drop=True)
+        stb = P(bare, [d1, 0.0, d2])
+        w_ = 0.0
+        for k_, dd in enumerate([d1, 0.0, d2]):
+            want_ = P(im, dd).isel(z=0) if dd != 0 else im.isel(z=0)
+            w_ = max(w_, relmax(stb.isel(z=k_).transpose("x", "y").values, want_.transpose("x", "y").values))
+        resid["stack@no_z_coordinate_with_zero"] = fnum(w_)
+        flags["stack_labels@no_z_coordinate_with_zero"] = bool(list(stb.z.values) == [d1, 0.0, d2])
+    except Exception:
+        flags["image_without_z_coordinate_propagates_to_a_list_with_zero"] = False
+    try:
+        rows = im.assign_coords(row=("x", np.arange(im.sizes["x"])))
+        rows.attrs = dict(im.attrs)
+        rr = P(rows, d1)
+        resid["stack@extra_coordinate_along_x"] = relmax(rr.transpose(*r1.dims).values, r1.values)
+    except Exception:
+        flags["image_with_extra_coordinate_along_x_propagates"] = False
     # cfsp
     rc = P(im, d1, cfsp=case["cfsp"])
     resid["cfsp"] = relmax(rc.transpose(*r1.dims).values, r1.values)
@@ -385,6 +420,9 @@ def judge(case, obs):
             out.append({"mech": "fftinv.values.%s" % odd, "detail": "ifft(fft(x)) != x: rel %.3e; %s" % (r["values"], desc)})
         if not r.get("values_noshift", 0) <= 1e-12:
             out.append({"mech": "fftinv.values_noshift", "detail": "rel %.3e; %s" % (r["values_noshift"], desc)})
+        for k_ in ("values_ndarray", "values_ndarray_vs_labelled", "values_1d"):
+            if not r.get(k_, 0) <= 1e-12:
+                out.append({"mech": "fftinv.%s" % k_, "detail": "rel %.3e; %s" % (r[k_], desc)})
         if not r.get("coords", 0) <= 1e-12:
             org = obs.get("origin") or [0, 0, 0, 0]
             lost = (org[0] != 0 or org[1] != 0) and org[2] == 0 and org[3] == 0 and r.get("coords_minus_origin", 1) <= 1e-12
